@@ -1062,3 +1062,52 @@ Proof.
 Qed.
 
 End Runs.
+
+(* ------------------------------------------------------------------ any tolerance *)
+(* Without the bound tol < dt/2 the grid point within tolerance need not be unique, but the coded
+   test still says exactly "some grid point is within tolerance", and the observation returned is
+   the one at the NEAREST grid point round(t/dt), which is then itself within tolerance.
+   (Strictly between two grid points, [between] already forces 2*tol < dt.) *)
+Section AnyTol.
+Variables dt tol : R.
+Hypothesis Hdt : 0 < dt.
+Hypothesis Htol0 : 0 <= tol.
+
+Lemma rne_minimises t k : Rabs (IZR (rneZ RN (shift_of RN dt t)) * dt - t) <= Rabs (IZR k * dt - t).
+Proof.
+  unfold shift_of. rn_simpl. set (q := t / dt). assert (Hq : q * dt = t) by (unfold q; field; lra).
+  set (r := Znearest (fun z => negb (Z.even z)) q).
+  assert (E : forall z, Rabs (IZR z * dt - t) = Rabs (q - IZR z) * dt).
+  { intros z. rewrite <- Hq. replace (IZR z * dt - q * dt) with (- ((q - IZR z) * dt)) by ring.
+    rewrite Rabs_Ropp, Rabs_mult, (Rabs_pos_eq dt) by lra. reflexivity. }
+  rewrite !E. apply Rmult_le_compat_r; [lra|].
+  destruct (Rlt_le_dec (Rabs (q - IZR k)) (/ 2)) as [Hlt|Hge].
+  - unfold r. rewrite (Znearest_imp _ q k Hlt). lra.
+  - pose proof (Znearest_half (fun z => negb (Z.even z)) q). fold r in H. lra.
+Qed.
+
+Theorem on_grid_iff_any_tol t : on_grid RN dt tol t = true <-> exists k, Rabs (IZR k * dt - t) <= tol.
+Proof.
+  split.
+  - intros H. unfold on_grid in H. rn_simpl. rcases; [|discriminate]. eexists. rewrite Rmult_comm. eassumption.
+  - intros (k & Hk). pose proof (rne_minimises t k) as Hm. unfold on_grid. rn_simpl.
+    rcases; [reflexivity|]. exfalso. match goal with Hn : ~ _ |- _ => apply Hn end. rewrite (Rmult_comm dt). lra.
+Qed.
+
+Theorem select_scalar_on_grid_any_tol (s : ringR) off t interp : wf s -> full s -> in_range dt tol (N s) t ->
+  (exists k, Rabs (IZR k * dt - t) <= tol) ->
+  let r := rneZ RN (shift_of RN dt t) in
+  Rabs (IZR r * dt - t) <= tol /\ (forall k, Rabs (IZR r * dt - t) <= Rabs (IZR k * dt - t)) /\
+  exists d sh, st s = SFull d sh (rows s) /\
+    select_scalar RN s dt tol off t interp = Ok s (OObs d sh (at_ s (off + r))).
+Proof.
+  intros Hwf Hf Hr (k & Hk) r. pose proof (rne_minimises t k) as Hm. fold r in Hm.
+  split; [lra|]. split; [intros k'; apply rne_minimises|].
+  destruct (full_st s Hf) as (d & sh & Est). exists d, sh. split; [exact Est|].
+  assert (Eg : on_grid RN dt tol t = true) by (apply on_grid_iff_any_tol; eauto).
+  assert (Eo : out_of_range RN (N s) dt tol t = false).
+  { destruct (out_of_range RN (N s) dt tol t) eqn:E; [|reflexivity]. exfalso. destruct Hr as (H1 & H2).
+    unfold out_of_range, gtb in E. rn_simpl. rcases; cbn [orb] in E; try discriminate; lra. }
+  unfold select_scalar. rn_simpl. rewrite Est. rw Eo. rw Eg. reflexivity.
+Qed.
+End AnyTol.
